@@ -1,6 +1,6 @@
-\* exhaustive: core S, every stationary-flag setting, tracking on and off, depth-bounded
+\* exhaustive: core S, stationary-flag settings {}, {G}, {G,P}, tracking on and off, depth-bounded
 CONSTANTS NL = 4  NA0 = 3  NP0 = 1  NF = 2  MB = 3  MaxCascade = 3  MaxLevel = 4  ReAdd = TRUE
-CONSTANTS Layout <- LayoutS  Place <- PlaceS  SFlagSets <- FlagsAll  TrackSet <- Both  Go <- GoBounded
+CONSTANTS Layout <- LayoutS  Place <- PlaceS  SFlagSets <- FlagsGP  TrackSet <- Both  Go <- GoBounded
 INIT Init
 NEXT Next
 CONSTRAINT Bound
